@@ -36,6 +36,11 @@ func RunConn(server *redis.Server, conn *seq.Conn) (out Outcome) {
 	return RunConnTLS(server, conn, nil)
 }
 
+// NoRegistryProbe makes RunConn leave the server's registry alone after the
+// run (Outcome.ConnsLeft stays 0): for checks in which the application must not
+// look at the registry between two connections.
+var NoRegistryProbe bool
+
 // RunConnTLS is RunConn for a connection the server takes for a TLS one:
 // tlsState (non-nil) is what the accept path would have obtained from the
 // finished handshake.
@@ -78,6 +83,9 @@ func RunConnTLS(server *redis.Server, conn *seq.Conn, tlsState *tls.ConnectionSt
 	out.Closes = conn.Closes
 	out.ClosedAt = conn.ClosedAt
 	out.Writes = conn.Writes
+	if NoRegistryProbe {
+		return out
+	}
 	func() {
 		defer func() { recover() }()
 		out.ConnsLeft = len(server.Conns())
